@@ -238,7 +238,8 @@ def msg_type_decoders(F):
             if spliced:
                 every.add(p_)
                 continue
-            cs = fl_.calls(lambda c: c in every)
+            conv = {'std::convert::TryFrom::try_from', 'std::convert::TryInto::try_into'} if any('TryFrom<u8>' in e_ for e_ in every) else set()
+            cs = fl_.calls(lambda c: c in every or c in conv)      # (a call through the conversion trait an impl of which is a decoder)
             if cs and all(all(o.kind == 'param' and o.key == 1 for o in fl_.origins(ct['args'][0])) for _, ct in cs) and \
                     not any('MessageType' in str(st['rv'].get('adt', '')) for blk in b_.blocks for st in blk['stmts'] if st['rv']['k'] == 'agg'):
                 every.add(p_)
